@@ -1103,6 +1103,28 @@ fn long_checkpoint_history(n_after: usize) -> Vec<Viol> {
             out.push(Viol { what: format!("thread with {n_after} checkpoint frames for the same cut point, cut_points call #{call}: latest_checkpoint_id = {got_ids:?}, the latest frames in stream order are {want_ids:?}"), class: "latest_checkpoint_id_not_latest_frame".into() });
         }
     }
+    // status.latest_checkpoint: the checkpoint with the greatest to_seq, the latest frame among those (beyond the
+    // scan window it comes from the fallback scan over the replayed stream)
+    let want_latest = events
+        .iter()
+        .filter_map(|e| match &e.kind {
+            EventKind::ContinuityCompactionCheckpointCreated { checkpoint_id, to_seq, .. } => Some((*to_seq, e.seq, checkpoint_id.clone())),
+            _ => None,
+        })
+        .max_by_key(|x| (x.0, x.1))
+        .map(|x| x.2);
+    match store.compaction_status_v1(&tid, CompactionStatusV1Request { stride_messages: Some(2) }) {
+        Ok(st) => {
+            let got = st.latest_checkpoint.as_ref().map(|c| c.checkpoint_id.clone());
+            if got != want_latest {
+                out.push(Viol { what: format!("thread with {n_after} checkpoint frames for the newest cut point: status.latest_checkpoint = {got:?}, the latest frame of the greatest to_seq is {want_latest:?}"), class: "latest_checkpoint_id_not_latest_frame".into() });
+            }
+            if st.next_cut_point.is_some() {
+                out.push(Viol { what: format!("thread with {} checkpoint frames, every cut point checkpointed: status.next_cut_point = {:?}", n_after + 1, st.next_cut_point.map(|p| p.target_message_ordinal)), class: "checkpointed_flag_wrong_beyond_scan_window".into() });
+            }
+        }
+        Err(e) => out.push(Viol { what: format!("status on a thread with {} checkpoint frames failed: {e}", n_after + 1), class: "unexpected_error".into() }),
+    }
     out
 }
 
@@ -1212,8 +1234,9 @@ fn foreign_summary_scenario() -> Vec<Viol> {
     } else if count(&child) != c0 {
         v.push(Viol { what: "refused manual checkpoint (coverage ends elsewhere) appended frames".into(), class: "noop_appended_frames".into() });
     }
+    let c1 = count(&child);
     match w.store.compaction_checkpoint_cumulative_v1(&child, req(Some(art.clone()), None, 2)) {
-        Ok(_) if count(&child) == c0 + 1 => {}
+        Ok(_) if count(&child) == c1 + 1 => {}
         other => v.push(Viol { what: format!("a summary artifact with matching coverage was not accepted as one more checkpoint: {:?}", other.map(|x| x.0)), class: "unexpected_error".into() }),
     }
     w.refresh();
